@@ -11,6 +11,7 @@ EXTENDS HeaderContract
 \* comment-only boilerplate texts, as line classes (the harness writes matching bytes).
 \* The second group are texts a doc-comment reformatter (gofmt on a comment that is attached to a declaration)
 \* would rewrite: indented lines, list markers, numbered lists, headings, trailing blanks, " * " gutters.
+BigN == 24        \* > RunCap: "many"
 LCs(n) == [i \in 1..n |-> L("lc")]
 BoilerLines(s) ==
   CASE s = "none"   -> << >>
@@ -28,6 +29,13 @@ BoilerLines(s) ==
     [] s = "heading"   -> LCs(4)       \* "// # Title" heading
     [] s = "indented"  -> LCs(5)       \* tab- and space-indented lines inside // comments
     [] s = "dashlist"  -> LCs(4)       \* "- " list items
+    \* size classes (concretised just above 4 KiB / 64 KiB / 1 MiB): "many" lines, see HeaderContract!CapRuns
+    [] s = "manylines" -> LCs(BigN)
+    [] s = "manyblock" -> <<L("bopen")>> \o [i \in 1..BigN |-> L("bmid")] \o <<L("bclose")>>
+    \* text/template metacharacters: the boilerplate is data, never template source
+    [] s = "tmplline"  -> LCs(2)       \* // lines with {{.PkgName}}, {{year}}, backquotes
+    [] s = "tmplnote"  -> LCs(2)       \* {{/* */}}, {{- -}}, unbalanced {{ and }}
+    [] s = "tmplblock" -> <<L("bopen"), L("bmid"), L("bmid"), L("bclose")>>   \* the same inside /* */
     [] s = "crlf"      -> LCs(2)       \* CRLF line endings
     [] s = "bom"       -> LCs(2)       \* the file starts with a UTF-8 byte order mark
     [] s = "trailsp"   -> LCs(2)       \* lines ending in blanks / a tab
